@@ -1,7 +1,7 @@
 (* C05 — gridded pieces land in the cells the path crosses: the two-coordinate theorem and the
    structural facts (path order, matching lengths, altitude / time / state of the start point). *)
 From Coq Require Import ZArith List Bool Reals Lra Lia Permutation Sorted.
-From AV Require Import lib.Num model.C04_Model proofs.C05_Sorting proofs.C05_Cells.
+From AV Require Import lib.Num model.C04_Model proofs.C04_Proofs proofs.C05_Sorting proofs.C05_Cells.
 Import ListNotations.
 Local Open Scope R_scope.
 
@@ -54,6 +54,16 @@ Proof.
 Qed.
 
 
+Lemma Forall2_map_r_ex {A B C} (P : A -> B -> Prop) (f : B -> C) l1 l2 (L : list B) :
+  Forall2 P l1 l2 -> (forall b, In b l2 -> In b L) ->
+  Forall2 (fun a c => exists b, In b L /\ P a b /\ c = f b) l1 (map f l2).
+Proof.
+  intros H. induction H as [|a b l1 l2 Hab _ IH]; intros Hsub; [constructor|].
+  cbn [map]. constructor.
+  - exists b. split; [apply Hsub; left; reflexivity|]. split; [exact Hab|reflexivity].
+  - apply IH. intros x Hx. apply Hsub. right. exact Hx.
+Qed.
+
 (* ---------- real arithmetic of the intersection coordinates ---------- *)
 
 Lemma ratio_unit x a b : Rmin a b <= x <= Rmax a b -> a <> b -> 0 <= (x - a) / (b - a) <= 1.
@@ -82,10 +92,10 @@ Section Seg.
   Variables (clamp : bool) (glat glon : list R) (lat0 lon0 lat1 lon1 : R).
   Hypothesis Hglat : incr glat.
   Hypothesis Hglon : incr glon.
-  Hypothesis Hlat0 : inside glat lat0.
-  Hypothesis Hlat1 : inside glat lat1.
-  Hypothesis Hlon0 : inside glon lon0.
-  Hypothesis Hlon1 : inside glon lon1.
+  Hypothesis Hlat0 : okx clamp glat lat0.
+  Hypothesis Hlat1 : okx clamp glat lat1.
+  Hypothesis Hlon0 : okx clamp glon lon0.
+  Hypothesis Hlon1 : okx clamp glon lon1.
 
   Definition dlat := lat1 - lat0.
   Definition dlon := lon1 - lon0.
@@ -148,10 +158,10 @@ Section Seg.
 
   (* lines met are between the segment's end coordinates *)
   Lemma latlines_between y : In y latlines -> Rmin lat0 lat1 <= y < Rmax lat0 lat1.
-  Proof. intros H. apply (lines_char clamp glat lat0 lat1 y Hglat Hlat0 Hlat1) in H. tauto. Qed.
+  Proof. intros H. apply (lines_char_gen clamp glat lat0 lat1 y Hglat Hlat0 Hlat1) in H. tauto. Qed.
 
   Lemma lonlines_between x : In x lonlines -> Rmin lon0 lon1 <= x < Rmax lon0 lon1.
-  Proof. intros H. apply (lines_char clamp glon lon0 lon1 x Hglon Hlon0 Hlon1) in H. tauto. Qed.
+  Proof. intros H. apply (lines_char_gen clamp glon lon0 lon1 x Hglon Hlon0 Hlon1) in H. tauto. Qed.
 
   Lemma lats_for_lon_between y : In y lats_for_lon -> Rmin lat0 lat1 <= y <= Rmax lat0 lat1.
   Proof.
@@ -216,16 +226,16 @@ Section Seg.
     destruct Hz as [Hz|Hz]; [apply lonlines_between in Hz; lra|apply lons_for_lat_between; exact Hz].
   Qed.
 
-  Lemma lat_complete y : In y glat -> Rmin lat0 lat1 <= y < Rmax lat0 lat1 -> In y ilats.
+  Lemma lat_complete y : In y glat -> Rmin lat0 lat1 <= y < Rmax lat0 lat1 -> gn glat 0 < y -> In y ilats.
   Proof.
-    intros Hy Hb. unfold ilats. eapply Permutation_in; [symmetry; apply sort_dir_perm|].
-    apply in_or_app. left. apply (lines_char clamp glat lat0 lat1 y Hglat Hlat0 Hlat1). tauto.
+    intros Hy Hb Hl. unfold ilats. eapply Permutation_in; [symmetry; apply sort_dir_perm|].
+    apply in_or_app. left. apply (lines_char_gen clamp glat lat0 lat1 y Hglat Hlat0 Hlat1). tauto.
   Qed.
 
-  Lemma lon_complete x : In x glon -> Rmin lon0 lon1 <= x < Rmax lon0 lon1 -> In x ilons.
+  Lemma lon_complete x : In x glon -> Rmin lon0 lon1 <= x < Rmax lon0 lon1 -> gn glon 0 < x -> In x ilons.
   Proof.
-    intros Hx Hb. unfold ilons. eapply Permutation_in; [symmetry; apply sort_dir_perm|].
-    apply in_or_app. left. apply (lines_char clamp glon lon0 lon1 x Hglon Hlon0 Hlon1). tauto.
+    intros Hx Hb Hl. unfold ilons. eapply Permutation_in; [symmetry; apply sort_dir_perm|].
+    apply in_or_app. left. apply (lines_char_gen clamp glon lon0 lon1 x Hglon Hlon0 Hlon1). tauto.
   Qed.
 
   (* the two one-coordinate results *)
@@ -448,6 +458,21 @@ Section Seg.
     - apply (mono_between ilons lon0 lon1 (snd (fst ab)) lon_chain_mono). rewrite <- chain_lon.
       apply in_map. exact Hp.
   Qed.
+  (* share = length share, tied to the cell: every value of a segment is v * (length of a piece) / (segment
+     length) for a piece lying in the closed cell the value is attributed to *)
+  Theorem values_in_cells (dist : R * R -> R * R -> R) fix3 (v : R) :
+    dist (lat0, lon0) (lat1, lon1) <> 0 ->
+    Forall2 (fun c val => exists ab, In ab (pairs chain) /\ piece_in_cell c ab /\
+                                     val = v * dist (fst ab) (snd ab) / dist (lat0, lon0) (lat1, lon1))
+            cells
+            (@seg_values RNum fix3 v (dist (lat0, lon0) (lat1, lon1))
+                         (map (fun ab => dist (fst ab) (snd ab)) (pairs chain))).
+  Proof.
+    intros HD. unfold seg_values. rewrite map_map.
+    eapply Forall2_weaken; [|apply (Forall2_map_r_ex _ _ _ _ (pairs chain) pieces_in_cells); auto].
+    intros c val [ab [Hin [Hc ->]]]. exists ab. split; [exact Hin|]. split; [exact Hc|].
+    unfold piece_value. rewrite C04_Proofs.frac_nonzero by exact HD. cbn [mul RNum]. field. exact HD.
+  Qed.
 End Seg.
 
 (* ---------- structural facts of a trajectory part ---------- *)
@@ -576,7 +601,7 @@ End Part.
 
 (* every reported cell holds a piece of the chain (so a cell the path does not touch is never listed) *)
 Theorem reported_cell_holds_a_piece clamp glat glon lat0 lon0 lat1 lon1 c :
-  incr glat -> incr glon -> inside glat lat0 -> inside glat lat1 -> inside glon lon0 -> inside glon lon1 ->
+  incr glat -> incr glon -> okx clamp glat lat0 -> okx clamp glat lat1 -> okx clamp glon lon0 -> okx clamp glon lon1 ->
   In c (cells clamp glat glon lat0 lon0 lat1 lon1) ->
   exists ab, In ab (pairs (chain clamp glat glon lat0 lon0 lat1 lon1)) /\ piece_in_cell glat glon c ab.
 Proof.
@@ -664,4 +689,226 @@ Lemma crossing_lat_as_coded_refuted :
     <> (lon_cross - lon0) * (lat1 - lat0).
 Proof.
   exists (-1)%Z, 0, 3, 1, (-3). cbn [Z.eqb Pos.eqb crossing_lat]. unfold pi. cbn [lit RNum]. split; lra.
+Qed.
+
+(* ====================================================================================================
+   Lifting to trajectory parts and to the one-crossing case of [geometry]
+   ==================================================================================================== *)
+
+Definition pt_ok (clamp : bool) (glat glon : list R) (p : R * R) : Prop :=
+  okx clamp glat (fst p) /\ okx clamp glon (snd p).
+
+(* what is proved about the geometry of one segment *)
+Definition geom_ok (glat glon : list R) (g : list (Z * Z) * list (R * R)) : Prop :=
+  Forall2 (piece_in_cell glat glon) (fst g) (pairs (snd g)) /\
+  mono (map fst (snd g)) /\ mono (map snd (snd g)) /\
+  length (snd g) = S (length (fst g)).
+
+Lemma seg_geom_ok clamp glat glon (p0 p1 : R * R) :
+  incr glat -> incr glon -> pt_ok clamp glat glon p0 -> pt_ok clamp glat glon p1 ->
+  geom_ok glat glon (@seg_geometry RNum clamp glat glon p0 p1).
+Proof.
+  intros Hg1 Hg2 [A0 B0] [A1 B1]. destruct p0 as [la lo], p1 as [lb lob]. cbn [fst snd] in *.
+  rewrite seg_geometry_unfold. unfold geom_ok. cbn [fst snd].
+  split; [apply pieces_in_cells; assumption|].
+  destruct (chain_monotone clamp glat glon la lo lb lob Hg1 Hg2 A0 A1 B0 B1) as [M1 M2].
+  split; [exact M1|]. split; [exact M2|]. apply chain_first_last.
+Qed.
+
+Lemma in_pairs_both {A} (l : list A) (ab : A * A) : In ab (pairs l) -> In (fst ab) l /\ In (snd ab) l.
+Proof.
+  destruct ab as [u w]. intros H. destruct (in_pairs_split l u w H) as [P [Q ->]]. cbn [fst snd]. split.
+  - apply in_or_app. right. left. reflexivity.
+  - apply in_or_app. right. right. left. reflexivity.
+Qed.
+
+(* every segment of a part whose points are admissible: containment, path order, chain shape *)
+Theorem part_contained clamp glat glon (pts : list (R * R)) :
+  incr glat -> incr glon -> Forall (pt_ok clamp glat glon) pts ->
+  Forall (geom_ok glat glon) (@part_geometry RNum clamp glat glon pts).
+Proof.
+  intros Hg1 Hg2 Hp. unfold part_geometry. apply Forall_forall. intros g Hin.
+  apply in_map_iff in Hin. destruct Hin as [s [<- Hs]].
+  destruct (in_pairs_both pts s Hs) as [I0 I1]. rewrite Forall_forall in Hp.
+  apply seg_geom_ok; auto.
+Qed.
+
+Lemma Forall_firstn {A} (P : A -> Prop) n (l : list A) : Forall P l -> Forall P (firstn n l).
+Proof. revert n. induction l as [|a l IH]; intros [|n] H; try constructor; inversion H; subst; auto. Qed.
+
+Lemma Forall_skipn {A} (P : A -> Prop) n (l : list A) : Forall P l -> Forall P (skipn n l).
+Proof. revert n. induction l as [|a l IH]; intros [|n] H; auto; inversion H; subst; cbn [skipn]; auto. Qed.
+
+(* the two parts of a trajectory that crosses the antimeridian once *)
+Theorem crossing_parts clamp fixdl glat glon galt gtime (pts : list (R * R)) alts times states :
+  count_nonzero (@crossings RNum (map snd pts)) = 1%nat ->
+  let cr := @crossings RNum (map snd pts) in
+  let i := first_nonzero cr O in
+  let sg := nth i cr 0%Z in
+  let latx := @crossing_lat RNum fixdl sg (nth i pts (0, 0)) (nth (S i) pts (0, 0)) in
+  @geometry RNum clamp fixdl glat glon galt gtime pts alts times states
+  = (1%Z, i,
+     [ @part_run RNum clamp glat glon galt gtime (first_part pts i (latx, @exit_lon RNum sg))
+         (option_map (fun a => first_part a i (nth i a 0)) alts)
+         (option_map (fun t => first_part t i (nth i t 0)) times)
+         (map (fun v => first_part v i (nth i v 0)) states);
+       @part_run RNum clamp glat glon galt gtime (second_part pts i (latx, @entry_lon RNum sg))
+         (option_map (fun a => second_part a i (nth i a 0)) alts)
+         (option_map (fun t => second_part t i (nth i t 0)) times)
+         (map (fun v => second_part v i (nth i v 0)) states) ]).
+Proof.
+  intros H. unfold geometry.
+  match goal with |- context [count_nonzero ?t] => replace (count_nonzero t) with 1%nat by (symmetry; exact H) end.
+  reflexivity.
+Qed.
+
+Lemma part_run_geom clamp glat glon galt gtime pts alts times states :
+  snd (@part_run RNum clamp glat glon galt gtime pts alts times states) = @part_geometry RNum clamp glat glon pts.
+Proof. reflexivity. Qed.
+
+(* containment, path order and chain shape for BOTH parts of the one-crossing case: the inserted points
+   (crossing latitude, +-pi) only have to be admissible — with the clamp, -pi may be the lowest longitude line *)
+Theorem crossing_contained clamp fixdl glat glon galt gtime (pts : list (R * R)) alts times states :
+  incr glat -> incr glon ->
+  count_nonzero (@crossings RNum (map snd pts)) = 1%nat ->
+  let cr := @crossings RNum (map snd pts) in
+  let i := first_nonzero cr O in
+  let sg := nth i cr 0%Z in
+  let latx := @crossing_lat RNum fixdl sg (nth i pts (0, 0)) (nth (S i) pts (0, 0)) in
+  Forall (pt_ok clamp glat glon) pts ->
+  okx clamp glat latx -> okx clamp glon (@exit_lon RNum sg) -> okx clamp glon (@entry_lon RNum sg) ->
+  exists r1 r2,
+    @geometry RNum clamp fixdl glat glon galt gtime pts alts times states = (1%Z, i, [r1; r2]) /\
+    Forall (geom_ok glat glon) (snd r1) /\ Forall (geom_ok glat glon) (snd r2).
+Proof.
+  intros Hg1 Hg2 H cr i sg latx Hp Hx He Hn.
+  eexists. eexists. split; [apply crossing_parts; exact H|].
+  rewrite !part_run_geom. split; apply part_contained; try assumption.
+  - unfold first_part. rewrite Forall_app. split; [apply Forall_firstn; exact Hp|].
+    constructor; [split; assumption|constructor].
+  - unfold second_part. constructor; [split; assumption|apply Forall_skipn; exact Hp].
+Qed.
+
+(* the repaired crossing latitude lies between the latitudes of the crossing segment, so it is admissible
+   whenever both end points are *)
+Lemma crossing_lat_between sg (lat0 lon0 lat1 lon1 : R) :
+  - @pi RNum <= lon0 <= @pi RNum -> - @pi RNum <= lon1 <= @pi RNum ->
+  (sg = (-1)%Z -> lon1 - lon0 < - @pi RNum) -> (sg <> (-1)%Z -> @pi RNum < lon1 - lon0) ->
+  Rmin lat0 lat1 <= @crossing_lat RNum true sg (lat0, lon0) (lat1, lon1) <= Rmax lat0 lat1.
+Proof.
+  intros H0 H1 Hd Hu. unfold crossing_lat. cbn [add sub mul div opp eqb RNum two one].
+  assert (Pp : 0 < @pi RNum) by (unfold pi; cbn [lit RNum]; lra).
+  destruct (sg =? -1)%Z eqn:E.
+  - apply Z.eqb_eq in E. specialize (Hd E).
+    destruct (Reqb (lon1 + (1 + 1) * @pi RNum) lon0) eqn:Q; [split; [apply Rmin_l|apply Rmax_l]|].
+    apply Reqb_false in Q. apply affine_between.
+    assert (0 < lon1 + (1 + 1) * @pi RNum - lon0) by lra. split.
+    + unfold Rdiv. apply Rmult_le_pos; [lra|left; apply Rinv_0_lt_compat; lra].
+    + apply (Rmult_le_reg_r (lon1 + (1 + 1) * @pi RNum - lon0)); [lra|].
+      unfold Rdiv. rewrite Rmult_assoc, Rinv_l by lra. lra.
+  - apply Z.eqb_neq in E. specialize (Hu E).
+    destruct (Reqb (lon1 - (1 + 1) * @pi RNum) lon0) eqn:Q; [split; [apply Rmin_l|apply Rmax_l]|].
+    apply Reqb_false in Q. apply affine_between.
+    assert (0 < lon0 - (lon1 - (1 + 1) * @pi RNum)) by lra.
+    replace ((- @pi RNum - lon0) / (lon1 - (1 + 1) * @pi RNum - lon0))
+      with ((lon0 + @pi RNum) / (lon0 - (lon1 - (1 + 1) * @pi RNum))) by (field; lra). split.
+    + unfold Rdiv. apply Rmult_le_pos; [lra|left; apply Rinv_0_lt_compat; lra].
+    + apply (Rmult_le_reg_r (lon0 - (lon1 - (1 + 1) * @pi RNum))); [lra|].
+      unfold Rdiv. rewrite Rmult_assoc, Rinv_l by lra. lra.
+Qed.
+
+(* matching lengths in the crossing case: each part is gridded from equally long point / altitude / time /
+   state lists, so part_lengths_match applies to both *)
+Lemma first_part_length {A B} (l1 : list A) (l2 : list B) i x y :
+  length l1 = length l2 -> length (first_part l1 i x) = length (first_part l2 i y).
+Proof. intros H. unfold first_part. rewrite !app_length, !firstn_length, H. reflexivity. Qed.
+
+Lemma second_part_length {A B} (l1 : list A) (l2 : list B) i x y :
+  length l1 = length l2 -> length (second_part l1 i x) = length (second_part l2 i y).
+Proof. intros H. unfold second_part. cbn [length]. rewrite !skipn_length, H. reflexivity. Qed.
+
+Definition lengths_ok (r : @part_result RNum) : Prop :=
+  let '(la, lo, al, ti, st, _) := r in
+  length lo = length la /\
+  (forall a, al = Some a -> length a = length la) /\
+  (forall t, ti = Some t -> length t = length la) /\
+  Forall (fun s => length s = length la) st.
+
+Theorem crossing_lengths_match clamp fixdl glat glon galt gtime (pts : list (R * R)) (alts times : list R)
+        (states : list (list R)) :
+  count_nonzero (@crossings RNum (map snd pts)) = 1%nat ->
+  length alts = length pts -> length times = length pts ->
+  Forall (fun v => length v = length pts) states ->
+  exists i r1 r2,
+    @geometry RNum clamp fixdl glat glon galt gtime pts (Some alts) (Some times) states = (1%Z, i, [r1; r2]) /\
+    lengths_ok r1 /\ lengths_ok r2.
+Proof.
+  intros H Ha Ht Hs. eexists. eexists. eexists. split; [apply crossing_parts; exact H|].
+  cbn [option_map]. split.
+  - apply (part_lengths_match clamp glat glon _ galt gtime).
+    + apply first_part_length. exact Ha.
+    + apply first_part_length. exact Ht.
+    + apply Forall_forall. intros v Hv. apply in_map_iff in Hv. destruct Hv as [w [<- Hw]].
+      rewrite Forall_forall in Hs. apply first_part_length. apply Hs. exact Hw.
+  - apply (part_lengths_match clamp glat glon _ galt gtime).
+    + apply second_part_length. exact Ha.
+    + apply second_part_length. exact Ht.
+    + apply Forall_forall. intros v Hv. apply in_map_iff in Hv. destruct Hv as [w [<- Hw]].
+      rewrite Forall_forall in Hs. apply second_part_length. apply Hs. exact Hw.
+Qed.
+
+(* ---------- indexed form of the start-point attribution ---------- *)
+
+(* position [list_sum (firstn j cs) + r] (r < count j) of np.repeat(xs, cs) carries xs[j] *)
+Lemma nth_repeat_by {A} (xs : list A) (cs : list nat) (d : A) j r :
+  (j < length xs)%nat -> (j < length cs)%nat -> (r < nth j cs 0)%nat ->
+  nth (list_sum (firstn j cs) + r) (repeat_by xs cs) d = nth j xs d.
+Proof.
+  revert cs j. induction xs as [|x xs IH]; intros [|c cs] j Hx Hc Hr; try (simpl in *; lia).
+  destruct j as [|j].
+  - cbn [firstn list_sum fold_right Nat.add nth] in *. cbn [repeat_by].
+    rewrite app_nth1 by (rewrite repeat_length; exact Hr).
+    rewrite (nth_indep _ d x) by (rewrite repeat_length; exact Hr). apply nth_repeat.
+  - cbn [firstn nth] in *. cbn [repeat_by].
+    replace (list_sum (c :: firstn j cs) + r)%nat with (c + (list_sum (firstn j cs) + r))%nat by (simpl; lia).
+    rewrite app_nth2 by (rewrite repeat_length; lia). rewrite repeat_length.
+    replace (c + (list_sum (firstn j cs) + r) - c)%nat with (list_sum (firstn j cs) + r)%nat by lia.
+    apply IH; simpl in *; lia.
+Qed.
+
+Lemma nth_removelast {A} (l : list A) (d : A) j : (S j < length l)%nat -> nth j (removelast l) d = nth j l d.
+Proof.
+  revert j. induction l as [|a l IH]; intros j H; [simpl in H; lia|].
+  destruct l as [|b l]; [simpl in H; lia|].
+  change (removelast (a :: b :: l)) with (a :: removelast (b :: l)).
+  destruct j; [reflexivity|]. cbn [nth]. apply IH. simpl in *. lia.
+Qed.
+
+(* output position k = (pieces of segments 0..j-1) + r, r < pieces of segment j, carries the cell index of the
+   altitude / time of point j — the START point of segment j — and that cell contains it *)
+Theorem axis_index_at clamp (glat glon : list R) (pts : list (R * R)) (g vals : list R) j r :
+  let cs := counts (@part_geometry RNum clamp glat glon pts) in
+  length vals = length pts -> (j < length cs)%nat -> (r < nth j cs 0)%nat ->
+  nth (list_sum (firstn j cs) + r) (@axis_indices RNum clamp g vals cs) 0%Z
+  = @cell_index RNum clamp g (nth j vals 0).
+Proof.
+  intros cs Hl Hj Hr. unfold axis_indices.
+  assert (Hc : length cs = pred (length pts)) by apply counts_length.
+  assert (Hj' : (S j < length vals)%nat) by (rewrite Hl; lia).
+  rewrite nth_repeat_by; [|rewrite removelast_length, map_length; exact (proj1 (Nat.lt_succ_lt_pred _ _) Hj')|exact Hj|exact Hr].
+  rewrite nth_removelast by (rewrite map_length; exact Hj').
+  rewrite (nth_indep _ _ (@cell_index RNum clamp g 0)) by (rewrite map_length; apply Nat.lt_succ_l; exact Hj').
+  apply map_nth.
+Qed.
+
+Theorem state_value_at clamp (glat glon : list R) (pts : list (R * R)) (var : list R) j r :
+  let cs := counts (@part_geometry RNum clamp glat glon pts) in
+  length var = length pts -> (j < length cs)%nat -> (r < nth j cs 0)%nat ->
+  nth (list_sum (firstn j cs) + r) (@state_values RNum var cs) 0 = nth j var 0.
+Proof.
+  intros cs Hl Hj Hr. unfold state_values.
+  assert (Hc : length cs = pred (length pts)) by apply counts_length.
+  assert (Hj' : (S j < length var)%nat) by (rewrite Hl; lia).
+  rewrite nth_repeat_by; [|rewrite removelast_length; exact (proj1 (Nat.lt_succ_lt_pred _ _) Hj')|exact Hj|exact Hr].
+  apply nth_removelast. exact Hj'.
 Qed.
